@@ -34,7 +34,7 @@ for _t in ["Number_of_pixels", "IMax_f", "IMax_s", "Min_f", "Max_f", "Min_s", "M
 for _t in ["eps11", "eps22", "eps23", "eps12_s", "eps33_s", "sig11", "sig13", "sig23_s", "e11e11", "e22e22", "e12e12",
            "e11e22", "e23e12", "s33s33", "s11s11_s", "e13e13_s", "s22s13", "e33e33"]:
     FMT[_t] = "e4"
-UNKNOWN = ["foo", "bar_1", "my_col", "Intensity2", "zzz", "a", "weight"]
+UNKNOWN = ["foo", "bar_1", "my_col", "Intensity2", "zzz", "a", "weight", "ds"]
 ALLT = list(FMT.keys()) + UNKNOWN
 
 
@@ -163,6 +163,8 @@ class C18(object):
                 op["via_indexer"] = rnd.random() < 0.4    # the file goes through indexer.loadpars / savepars
             if fam == "cf_hdf" and kind == "load":
                 op["mmap"] = rnd.random() < 0.25          # read with mmap_h5colf
+            if fam == "grains_h5":
+                op["group"] = rnd.choice(["grains", "grains", "grains", "phaseB"])     # the grains of a second phase go into the same file
             if fam == "cf_hdf":
                 op["group"] = rnd.choice(["peaks", "peaks", "g2"])
                 op["variant"] = rnd.choice(["to_hdf", "to_hdf", "obj_to_hdf"])
@@ -347,7 +349,7 @@ class C18(object):
             return {"class": cls, "key": "files:%s:%s" % (fam, cls), "detail": detail}
 
         def key_of(op):
-            return (op["slot"], op.get("group", "")) if fam == "cf_hdf" else (op["slot"], "")
+            return (op["slot"], op.get("group", "")) if fam in ("cf_hdf", "grains_h5") else (op["slot"], "")
 
         def do_save(op, payload, slot):
             """returns True if acknowledged"""
@@ -390,7 +392,7 @@ class C18(object):
                         if fam == "grains_text":
                             M["grain"].write_grain_file(p, gl)
                         else:
-                            M["grain"].write_grain_file_h5(p, gl)
+                            M["grain"].write_grain_file_h5(p, gl, group_name=op.get("group", "grains"))
                     elif fam == "ubi":
                         M["indexing"].write_ubi_file(p, [np.array(w["ubi"]) for w in payload["grains"]])
                     elif fam == "sparse":
@@ -447,7 +449,7 @@ class C18(object):
                 if fam == "grains_text":
                     return M["grain"].read_grain_file(p)
                 if fam == "grains_h5":
-                    return M["grain"].read_grain_file_h5(p)
+                    return M["grain"].read_grain_file_h5(p, group_name=op.get("group", "grains"))
                 if fam == "ubi":
                     return M["indexing"].readubis(p)
                 if fam == "sparse":
